@@ -188,6 +188,63 @@ fn big_blocks(seed: u64, report: &mut Report) {
     }
 }
 
+/// Directed, real code + the property's oracle: the SOURCE changes while it is being backed up.  A directory's
+/// files are all stat'ed when the directory is listed and read one by one afterwards, so a file can shrink, grow,
+/// be emptied or vanish between the two.  Whatever the backup then records, the format must hold: every address
+/// inside its block, lengths summing to what the addresses deliver, validate finding no short block, and the
+/// files that did NOT change recorded with exactly their bytes.
+fn source_changes_during_backup(report: &mut Report) {
+    let mutations: &[(&str, &str)] = &[("shrinks", "truncate to 40 bytes"), ("grows", "append 200 bytes"), ("emptied", "truncate to 0"), ("vanishes", "remove"), ("replaced", "same length, other bytes")];
+    for (cap, capname, victim_name) in [(1u64 << 20, "combined small files", "b"), (1u64 << 20, "combined small files, the changing file last in its block", "c"), (0u64, "one block per file", "b")] {
+        for (mname, mdesc) in mutations {
+            let work = tempfile::tempdir().unwrap();
+            let (src, arch) = (work.path().join("src"), work.path().join("arch"));
+            std::fs::create_dir(&src).unwrap();
+            for (n, c) in [("a", b'a'), ("b", b'b'), ("c", b'c')] {
+                std::fs::write(src.join(n), vec![c; 100]).unwrap();
+            }
+            crate::real::create_archive(&arch);
+            let p = crate::real::BackupParams { max_entries_per_hunk: 1000, max_block_size: 1 << 20, small_file_cap: cap, owner: true, exclude: vec![] };
+            let victim = src.join(victim_name);
+            let m = mname.to_string();
+            let done = std::cell::Cell::new(false);
+            // when the event for /a arrives (its siblings have been stat'ed with their directory but not yet read), change one of them
+            let hook = Box::new(move |apath: &str| {
+                if apath != "/a" || done.replace(true) {
+                    return;
+                }
+                match m.as_str() {
+                    "shrinks" => std::fs::write(&victim, vec![b'B'; 40]).unwrap(),
+                    "grows" => std::fs::write(&victim, vec![b'B'; 300]).unwrap(),
+                    "emptied" => std::fs::write(&victim, b"").unwrap(),
+                    "vanishes" => std::fs::remove_file(&victim).unwrap(),
+                    _ => std::fs::write(&victim, vec![b'B'; 100]).unwrap(),
+                }
+            });
+            let r = crate::real::with_change_hook(hook, || crate::real::real_backup(&arch, &src, &p, crate::icept::IceptConfig::default()));
+            let case = json!({"directed": "source changes during the backup", "layout": capname, "changing_file": victim_name, "change": mdesc});
+            report.case(&format!("source-changes/{capname}/{mname}"), true);
+            report.hit(&format!("directed:source-changes:{mname}"));
+            if r.result.starts_with("result panic") {
+                report.oracle_fail("format:source-change-crashed-backup", case.clone(), "the backup crashed when a file changed under it", json!(crate::compare::trunc(&r.result)));
+                continue;
+            }
+            let expect: BTreeMap<String, Vec<u8>> = [("a", b'a'), ("b", b'b'), ("c", b'c')].into_iter().filter(|(n, _)| *n != victim_name).map(|(n, c)| (format!("/{n}"), vec![c; 100])).collect();
+            for (sig, what) in raw_reader(&arch, 0, &expect) {
+                report.oracle_fail(&sig, case.clone(), "after a backup during which a source file changed, the independent reader of the raw archive files found a violation", what);
+            }
+            let (state, _) = crate::absarch::abstract_archive(&arch);
+            for (sig, what) in format_violations(&state, &BTreeMap::new()) {
+                report.oracle_fail(&sig, case.clone(), "after a backup during which a source file changed, the archive does not conform to the documented format", what);
+            }
+            let v = crate::real::real_validate(&arch, false, crate::icept::IceptConfig::default());
+            if v.events.iter().any(|e| e.starts_with("event error")) {
+                report.oracle_fail("format:validate-complains-after-source-change", case.clone(), "validate reports errors on what a backup wrote while a source file changed", json!(v.events.iter().take(3).collect::<Vec<_>>()));
+            }
+        }
+    }
+}
+
 /// Independent reader working on the RAW files of an archive (no hex state): every block file decompresses and
 /// is stored under / named by the BLAKE2b hash of its content; every FILE entry recorded in version `band` has
 /// addresses inside readable blocks whose bytes are exactly `expect[apath]` (entries for paths not in `expect`
@@ -256,6 +313,7 @@ pub fn raw_reader(arch: &std::path::Path, band: u32, expect: &BTreeMap<String, V
 }
 
 pub fn run(tier: &str, seed: u64, report: &mut Report) {
+    source_changes_during_backup(report);
     let thorough = tier == "thorough";
     big_index(seed, report);
     big_blocks(seed, report);
